@@ -114,6 +114,21 @@ do {							\
 static void print_header(struct qb_ringbuffer_s * rb);
 static int _rb_chunk_reclaim(struct qb_ringbuffer_s * rb);
 
+/*
+ * The ring is empty when the read pointer has caught up with the write
+ * pointer (qb_rb_chunk_alloc() never lets the writer catch up with the
+ * reader). The words found there are free space that may still hold the
+ * payload of an older chunk, so they must not be taken for a chunk header.
+ */
+static inline uint32_t
+qb_rb_chunk_magic_at_read_pt(struct qb_ringbuffer_s * rb, uint32_t read_pt)
+{
+	if (read_pt == rb->shared_hdr->write_pt) {
+		return QB_RB_CHUNK_MAGIC_DEAD;
+	}
+	return QB_RB_CHUNK_MAGIC_GET(rb, read_pt);
+}
+
 qb_ringbuffer_t *
 qb_rb_open(const char *name, size_t size, uint32_t flags,
 	   size_t shared_user_data_size)
@@ -539,7 +554,7 @@ _rb_chunk_reclaim(struct qb_ringbuffer_s * rb)
 	int rc = 0;
 
 	old_read_pt = rb->shared_hdr->read_pt;
-	chunk_magic = QB_RB_CHUNK_MAGIC_GET(rb, old_read_pt);
+	chunk_magic = qb_rb_chunk_magic_at_read_pt(rb, old_read_pt);
 	if (chunk_magic != QB_RB_CHUNK_MAGIC) {
 		errno = EINVAL;
 		return -errno;
@@ -614,7 +629,7 @@ qb_rb_chunk_peek(struct qb_ringbuffer_s * rb, void **data_out, int32_t timeout)
 		return res;
 	}
 	read_pt = rb->shared_hdr->read_pt;
-	chunk_magic = QB_RB_CHUNK_MAGIC_GET(rb, read_pt);
+	chunk_magic = qb_rb_chunk_magic_at_read_pt(rb, read_pt);
 	if (chunk_magic != QB_RB_CHUNK_MAGIC) {
 		if (rb->notifier.post_fn) {
 			(void)rb->notifier.post_fn(rb->notifier.instance, res);
@@ -654,7 +669,7 @@ qb_rb_chunk_read(struct qb_ringbuffer_s * rb, void *data_out, size_t len,
 	}
 
 	read_pt = rb->shared_hdr->read_pt;
-	chunk_magic = QB_RB_CHUNK_MAGIC_GET(rb, read_pt);
+	chunk_magic = qb_rb_chunk_magic_at_read_pt(rb, read_pt);
 
 	if (chunk_magic != QB_RB_CHUNK_MAGIC) {
 		if (rb->notifier.timedwait_fn == NULL) {
